@@ -21,7 +21,12 @@ RULE = ('per round one threshold_proportional case, one threshold_absolute case,
         '(n=8..30), non-dyadic float weights (0.1, 0.3, 1/3, ...; the oracle and the model receive the EXACT rational value of '
         'each float), nearly symmetric (a symmetric matrix with relative noise 1e-9 / absolute 1e-10 that np.allclose accepts, '
         'or 1e-3 / 0.01 that it does not), all-zero, int64 and bool dtype, non-contiguous views (strided slice / transpose of a '
-        'larger array) for copy=False. p: 0, 1, k/16, k/32, k/8, out-of-range values, non-dyadic (0.07, 0.35, ...), and p chosen '
+        'larger array) for copy=False; every second round the same utilities on a FLOAT32 / FLOAT16 / LONGDOUBLE array holding (the '
+        'rounding of) the matrix (family storage:*; expectation computed from the exact values the array holds; copy=True: argument '
+        'untouched, result not aliased; copy=False: `result is argument` and the argument holds the result; 1/w and w/max judged with 4 ulp OF '
+        'THAT STORAGE - 2^-21 / 2^-8 - in this family only, supports and 0/1 values exactly; thresholds the storage holds exactly; '
+        'threshold_proportional against the float64 run on the same values); the copy flag also spelled 1 / 0 / np.True_ / np.False_ '
+        '(rotating, histogram flag:copy=*). p: 0, 1, k/16, k/32, k/8, out-of-range values, non-dyadic (0.07, 0.35, ...), and p chosen '
         'so that p*possible/ud falls on or within 2^-40 / 1e-10 / one ulp of k+.5; passed as float, np.float64 or int. '
         'thr: k/2, non-dyadic, and exactly equal to a weight. non-trivial = at least one off-diagonal nonzero; '
         'distinct by hash of (function, matrix, parameter, dtype)')
@@ -373,6 +378,23 @@ def check_util(ctx, name, f, args, A0, W, E, tol, case, dtype, speckey, view_rng
                     ctx.count(name + ':inplace_refused_on_%s' % dtype)
                 else:
                     ctx.fail(name + ':inplace', 'copy=False raised %r%s' % (e, '' if np.array_equal(Ac, A0) else ' and modified the argument'), case)
+            if not refuse:
+                # the flag in another spelling of the same truth value (a Python int, NumPy's bool scalar), rotating; arguments as
+                # passed: the representation layer recognises only `copy=False` itself as an in-place call
+                FLAG_ROT[0] += 1
+                sp, val = FLAG_SPELLINGS[FLAG_ROT[0] % len(FLAG_SPELLINGS)]
+                Af = A0.copy()
+                try:
+                    with no_variants():
+                        Rf = f(Af, *args, copy=val)
+                    if val:
+                        ctx.check(values_ok(Rf) and np.array_equal(Af, A0) and Rf is not Af and not np.shares_memory(Rf, Af), name + ':copy',
+                                  'copy=%s (a true flag) is not handled as copy=True' % sp, case)
+                    else:
+                        ctx.check(Rf is Af and values_ok(Af), name + ':inplace', 'copy=%s (a false flag) does not leave the result in the argument' % sp, case)
+                except Exception as e:
+                    ctx.fail(name + (':copy' if val else ':inplace'), 'copy=%s raised %r' % (sp, e), case)
+                ctx.count('flag:copy=' + sp)
             if view_rng is not None and n:
                 V, B, M = as_view(view_rng, A0); B0 = B.copy()
                 R3 = f(V, *args, copy=False)
@@ -380,6 +402,80 @@ def check_util(ctx, name, f, args, A0, W, E, tol, case, dtype, speckey, view_rng
                           'copy=False on a non-contiguous view: result not left in the view / cells outside the view touched', case)
                 ctx.count(name + ':view')
         return R
+
+
+FLAG_SPELLINGS = [('1', 1), ('0', 0), ('np.True_', np.True_), ('np.False_', np.False_)]
+FLAG_ROT = [0]
+# floating-point storages other than binary64 (float32 is what imaging pipelines write): relative tolerance for 1/w and w/max = 4 units
+# in the last place OF THAT STORAGE - used in this family only; supports / kept entries / 0-1 values are compared exactly
+STORAGES = [('float32', np.float32, F(1, 2 ** 21)), ('float16', np.float16, F(1, 2 ** 8)), ('float32', np.float32, F(1, 2 ** 21)),
+            ('longdouble', np.longdouble, F(8, 10 ** 15))]
+
+
+def storage_cases(ctx, bct, W, fam, thr, which):
+    """the utilities on a float32 / float16 / longdouble array holding (the rounding of) W: copy=True leaves the argument alone and
+    returns the specified values, copy=False returns THE ARGUMENT and the argument holds them - in the precision of the storage"""
+    sname, t, stol = STORAGES[which % len(STORAGES)]
+    n = len(W)
+    with np.errstate(all='ignore'):
+        As = npm(W, 'float').astype(t)
+    if n == 0 or not np.all(np.isfinite(As)) or not np.any(As):
+        return
+    Ws = [[F(float(x)) for x in row] for row in As]          # the values the array really holds (exact)
+    if F(float(t(float(thr)))) != thr:
+        thr = F(int(thr * 2), 2)                              # a threshold the storage holds exactly (NumPy compares in the array's precision)
+    jobs = [('threshold_absolute', bct.threshold_absolute, (float(thr),), None, 0), ('binarize', bct.binarize, (), 'binarize', 0),
+            ('normalize', bct.normalize, (), 'normalize', stol), ('invert', bct.invert, (), 'lengths', stol)]
+    for name, f, args, wname, tol in jobs:
+        E = expected(name, Ws, thr)
+        case = {'fn': name, 'W': strs(Ws), 'dtype': sname, 'family': 'storage:' + fam}
+        if name == 'threshold_absolute':
+            case['thr'] = str(thr)
+        ctx.case(case, nontrivial=True); ctx.count('storage:%s:%s' % (sname, name))
+
+        def values_ok(X):
+            return isinstance(X, np.ndarray) and X.shape == (n, n) and all(
+                (F(float(X[i, j])) == E[i][j]) if tol == 0 else close_to(X[i, j], E[i][j], tol) for i in range(n) for j in range(n))
+        calls = [(name, f, args)] + ([('weight_conversion', bct.weight_conversion, (wname,))] if wname else [])
+        for cname, g, a in calls:
+            base_case = case
+            case = base_case if cname == name else dict(base_case, fn='weight_conversion', wcm=wname)
+            with warnings.catch_warnings(), np.errstate(all='ignore'):
+                warnings.simplefilter('ignore')
+                B = As.copy()
+                try:
+                    R = g(B, *a)
+                    speckey = 'weight_conversion:' + wname if cname == 'weight_conversion' else 'threshold_absolute:exact' if name == 'threshold_absolute' else name + ':spec'
+                    ctx.check(values_ok(R), speckey,
+                              'copy=True on a %s array: result differs from the specified values (tolerance %s relative)' % (sname, float(tol)), case)
+                    ctx.check(np.array_equal(B, As) and B.dtype == As.dtype and R is not B and not np.shares_memory(R, B), cname + ':copy',
+                              'copy=True on a %s array modified / returned (a view of) the argument' % sname, case)
+                except Exception as e:
+                    ctx.fail(cname + ':copy', 'copy=True on a %s array raised %r' % (sname, e), case)
+                C = As.copy()
+                try:
+                    R2 = g(C, *a, copy=False)
+                    ctx.check(R2 is C and values_ok(C), cname + ':inplace',
+                              'copy=False on a %s array does not leave the result in the argument (returned object is the argument: %s; the argument holds the '
+                              'result to %s relative: %s)' % (sname, R2 is C, float(tol) if tol else 'exactly', values_ok(C)), case)
+                except Exception as e:
+                    ctx.fail(cname + ':inplace', 'copy=False on a %s array raised %r' % (sname, e), case)
+            case = base_case
+    # threshold_proportional: the same float64 values held exactly by the storage -> the same kept set (up to tie order), same contract
+    if Ws == W:
+        W = [[abs(x) for x in row] for row in W]; Ws = W; As = np.abs(As)
+        p = [0.25, 0.5, 0.3, 0.75, 1.0][which % 5]
+        case = {'fn': 'threshold_proportional', 'W': strs(Ws), 'p': repr(p), 'dtype': sname, 'family': 'storage:' + fam}
+        ctx.case(case, nontrivial=True); ctx.count('storage:%s:threshold_proportional' % sname)
+        try:
+            R64 = bct.threshold_proportional(npm(W, 'float'), p)
+            B = As.copy(); R = bct.threshold_proportional(B, p)
+            C = As.copy(); R2 = bct.threshold_proportional(C, p, copy=False)
+            ctx.check(tp_equiv(frmat(R64), R) is not None, 'threshold_proportional:count', 'on a %s array the kept set differs from the float64 run on the same values' % sname, case)
+            ctx.check(np.array_equal(B, As) and R is not B and not np.shares_memory(R, B), 'threshold_proportional:copy', 'copy=True on a %s array modified / returned the argument' % sname, case)
+            ctx.check(R2 is C and np.array_equal(C, R), 'threshold_proportional:inplace', 'copy=False on a %s array does not leave the result in the argument' % sname, case)
+        except Exception as e:
+            ctx.fail('threshold_proportional:raises', 'raised %r on a %s array' % (e, sname), case)
 
 
 def expected(name, W, thr=None):
@@ -398,6 +494,9 @@ def expected(name, W, thr=None):
             return 'nan'
         return [[W[i][j] / m for j in range(n)] for i in range(n)]
     raise KeyError(name)
+
+
+STORAGE_ROT = [0]
 
 
 def util_cases(ctx, bct, lines, pend):
@@ -466,6 +565,10 @@ def util_cases(ctx, bct, lines, pend):
         lines.append('wc_str %s %s' % (ml, enc_codes(wname))); pend.append(('wc_str', wcase, R, E, None))
         for c in (1, 0):
             lines.append('st_wc %s %s %d %d' % (ml, enc_codes(wname), flt, c)); pend.append(('st_wc', wcase, R, E, (c, A0, wname, flt)))
+    # ---------------- other floating-point storages (every second round; float32, float16, float32, longdouble in rotation)
+    STORAGE_ROT[0] += 1
+    if dtype == 'float' and STORAGE_ROT[0] % 2 == 0:
+        storage_cases(ctx, bct, W, fam, thr, STORAGE_ROT[0] // 2)
     # ---------------- unknown command strings
     if r.rand() < 0.5:
         bad = str(r.choice(['foo', 'Binarize', 'binarize ', '', 'length', 'normalise', 'lengths2', 'BINARIZE', 'invert']))
